@@ -42,6 +42,9 @@ class _FakeSocket(object):
     def makefile(self, *args, **kwargs):
         return self._file
 
+    def close(self):
+        pass
+
 
 class ChunkedFile(io.RawIOBase):
     """A reader that returns at most the next generated size per read"""
@@ -73,6 +76,10 @@ class RecordingConnection(http.client.HTTPConnection):
         self.reply_bytes = reply_bytes
         self.sent = bytearray()
         self.connect_count = 0
+        # fault injection: ("response", exc) raises exc from the next getresponse(),
+        # ("send", exc) from the next send() after recording the bytes
+        self.fail_next = None
+        self.cut = False
 
     def connect(self):
         self.connect_count += 1
@@ -85,8 +92,15 @@ class RecordingConnection(http.client.HTTPConnection):
             self.sent.extend(data)
         else:
             self.sent.extend(bytes(data))
+        if self.fail_next and self.fail_next[0] == "send" and b"\r\n\r\n" in self.sent:
+            exc, self.fail_next = self.fail_next[1], None
+            self.cut = True      # the body of this attempt is never sent
+            raise exc
 
     def getresponse(self):
+        if self.fail_next and self.fail_next[0] == "response":
+            exc, self.fail_next = self.fail_next[1], None
+            raise exc
         response = http.client.HTTPResponse(_FakeSocket(self.reply_bytes), method="POST")
         response.begin()
         # state machine bookkeeping of http.client
